@@ -104,18 +104,23 @@ func carriedCellsDetailed(lit *ssa.Function) map[*ssa.FreeVar]ssa.Instruction {
 }
 
 func checkC06(c *Ctx, r *Report) {
-	r.Explain = "Decides structural necessary conditions of replication convergence (the property as a whole — two databases, a wire protocol and every interleaving — is not decidable from the shape of the code): (R1) conflict resolution is idempotent across compare-and-swap retries: in the write callbacks that run a conflict resolver, no captured variable carries a value written by one attempt into the next attempt (written in the callback and read before it is written), and the incoming revision's version vector — an object captured from outside the callback — never has its current version overwritten in place (resolution builds the merged vector on a Copy); otherwise a retry resolves the conflict against the product of the previous attempt and the peers keep different winners; (R2) on the pulling side a revision's sequence is reported to the checkpointer as processed only on the success edge of the local write, so a revision whose write failed is fetched again after a restart; (R3) on the pushing side a sequence is reported as processed only after the peer's answer to that revision has been received; (R4) after a local-wins resolution (current version kept, history rewritten) both the resolving node and, through the mutation feed, every other node drop the revision-cache entry keyed by that version. Not decided: that both sides pick the same winner, that the resolved revision reaches the other side, push revisions the peer rejects (they are counted and, by design, not retried), tombstone/edit and equal-generation ties, that a caught-up replication transfers nothing, heap-mediated aliasing beyond parameters and captured variables."
+	r.Explain = "Decides structural necessary conditions of replication convergence (the property as a whole — two databases, a wire protocol and every interleaving — is not decidable from the shape of the code): (R1) conflict resolution is idempotent across compare-and-swap retries: in the write callbacks that run a conflict resolver, no captured variable carries a value written by one attempt into the next attempt (written in the callback and read before it is written), and the incoming revision's version vector — an object captured from outside the callback — never has its current version overwritten in place (resolution builds the merged vector on a Copy); otherwise a retry resolves the conflict against the product of the previous attempt and the peers keep different winners; (R2) on the pulling side a revision's sequence is reported to the checkpointer as processed only on the success edge of the local write, so a revision whose write failed is fetched again after a restart; (R3) on the pushing side a sequence is reported as processed only after the peer's answer to that revision has been received; (R4) after a local-wins resolution (current version kept, history rewritten) both the resolving node and, through the mutation feed, every other node drop the revision-cache entry keyed by that version.; (R5, shared with C17-R2) the position a replicator persists and resumes from is the full printed form of the safe sequence (a compound low::seq token keeps its low part, so a late arrival below it is still pulled after a restart); (R6, shared with C19-R1) no body on the replication paths is decoded with the plain JSON decoder, so the body sent for a revision equals the body stored for it. Not decided: that both sides pick the same winner, that the resolved revision reaches the other side, push revisions the peer rejects (they are counted and, by design, not retried), tombstone/edit and equal-generation ties, that a caught-up replication transfers nothing, heap-mediated aliasing beyond parameters and captured variables."
 	c06R1(c, r)
 	c06R2R3(c, r)
 	c06R4(c, r)
+	c17R2For(c, r, "C06-R5")
+	c19R1For(c, r, "C06-R6")
 }
 
-func c06R1(c *Ctx, r *Report) {
-	r.Rule("C06-R1", "E2 reaching stores on captured cells + parameter taint", "conflict-resolving write callbacks carry no state from one CAS attempt to the next; the incoming version vector's current version is never overwritten in place", 4)
+func c06R1(c *Ctx, r *Report) { c06R1For(c, r, "C06-R1") }
+
+// c06R1For: shared with C10 (the vector-level clause: an incoming vector overwritten in place loses the incoming version on a retry).
+func c06R1For(c *Ctx, r *Report, rule string) {
+	r.Rule(rule, "E2 reaching stores on captured cells + parameter taint", "conflict-resolving write callbacks carry no state from one CAS attempt to the next; the incoming version vector's current version is never overwritten in place", 4)
 	cbs := retryCallbacks(c)
 	resolverF := c.Field("db.PutDocOptions", "ConflictResolver")
 	if resolverF == nil {
-		r.Fail("C06-R1", "anchor db.PutDocOptions.ConflictResolver", "-", "field not found")
+		r.Fail(rule, "anchor db.PutDocOptions.ConflictResolver", "-", "field not found")
 		return
 	}
 	var lits []*ssa.Function
@@ -142,7 +147,7 @@ func c06R1(c *Ctx, r *Report) {
 		name := c.FuncName(lit)
 		carried := carriedCells(lit)
 		if len(carried) == 0 {
-			r.Pass("C06-R1", "callback="+name+" carries-no-state-across-attempts", c.Pos(lit.Pos()), "every captured variable the callback writes is written before it is read")
+			r.Pass(rule, "callback="+name+" carries-no-state-across-attempts", c.Pos(lit.Pos()), "every captured variable the callback writes is written before it is read")
 		}
 		var ks []string
 		for k := range carried {
@@ -150,16 +155,16 @@ func c06R1(c *Ctx, r *Report) {
 		}
 		sort.Strings(ks)
 		for _, k := range ks {
-			r.Fail("C06-R1", fmt.Sprintf("callback=%s carried-variable=%s", name, k), c.Pos(carried[k].Pos()), "the callback assigns this captured variable and a later invocation (CAS retry) reads the value the previous attempt left in it: after a conflict was resolved once, the retry works on the rewritten history/revision instead of the incoming one")
+			r.Fail(rule, fmt.Sprintf("callback=%s carried-variable=%s", name, k), c.Pos(carried[k].Pos()), "the callback assigns this captured variable and a later invocation (CAS retry) reads the value the previous attempt left in it: after a conflict was resolved once, the retry works on the rewritten history/revision instead of the incoming one")
 		}
 	}
 	if resolving < 2 {
-		r.Fail("C06-R1", "conflict-resolving callbacks", "-", fmt.Sprintf("found %d write callbacks that consult PutDocOptions.ConflictResolver (expected the revision-tree and the version-vector path)", resolving))
+		r.Fail(rule, "conflict-resolving callbacks", "-", fmt.Sprintf("found %d write callbacks that consult PutDocOptions.ConflictResolver (expected the revision-tree and the version-vector path)", resolving))
 	}
 	// --- incoming vector not overwritten in place
 	hlvT := c.NamedType("db.HybridLogicalVector")
 	if hlvT == nil {
-		r.Fail("C06-R1", "anchor db.HybridLogicalVector", "-", "type not found")
+		r.Fail(rule, "anchor db.HybridLogicalVector", "-", "type not found")
 		return
 	}
 	cvFields := map[string]bool{"SourceID": true, "Version": true, "CurrentVersionCAS": true}
@@ -203,7 +208,7 @@ func c06R1(c *Ctx, r *Report) {
 		}
 	}
 	if len(destructive) < 3 {
-		r.Fail("C06-R1", "destructive vector methods", "-", fmt.Sprintf("only %d methods of HybridLogicalVector found that overwrite the current version (expected AddVersion, UpdateWithIncomingHLV, …)", len(destructive)))
+		r.Fail(rule, "destructive vector methods", "-", fmt.Sprintf("only %d methods of HybridLogicalVector found that overwrite the current version (expected AddVersion, UpdateWithIncomingHLV, …)", len(destructive)))
 		return
 	}
 	// taint: values that alias objects captured from outside a retry callback
@@ -304,7 +309,7 @@ func c06R1(c *Ctx, r *Report) {
 			if destructive[cal] && len(args) > 0 {
 				examined++
 				if isTainted(args[0]) {
-					r.Fail("C06-R1", fmt.Sprintf("fn=%s overwrites-in-place=incoming-vector via=%s", c.FuncName(TopLevel(fn)), CalleeIdent(ci)), c.Pos(ci.Pos()), "inside the CAS-retried write callback the version vector that was captured from outside (the incoming revision's vector) has its current version overwritten in place; if the write is retried the callback runs again with the overwritten vector, the update is cancelled as already present and the resolution is never propagated: build the merged vector on a Copy()")
+					r.Fail(rule, fmt.Sprintf("fn=%s overwrites-in-place=incoming-vector via=%s", c.FuncName(TopLevel(fn)), CalleeIdent(ci)), c.Pos(ci.Pos()), "inside the CAS-retried write callback the version vector that was captured from outside (the incoming revision's vector) has its current version overwritten in place; if the write is retried the callback runs again with the overwritten vector, the update is cancelled as already present and the resolution is never propagated: build the merged vector on a Copy()")
 				}
 			}
 			if cal.Pkg == nil || cal.Pkg.Pkg.Name() != "db" || len(cal.Blocks) == 0 {
@@ -324,17 +329,17 @@ func c06R1(c *Ctx, r *Report) {
 			if st, ok := in.(*ssa.Store); ok {
 				if fa, ok := st.Addr.(*ssa.FieldAddr); ok && isTainted(fa.X) && namedOf(fa.X.Type()) == "HybridLogicalVector" {
 					if f := structField(fa.X.Type(), fa.Field); f != nil && cvFields[f.Name()] {
-						r.Fail("C06-R1", fmt.Sprintf("fn=%s overwrites-in-place=incoming-vector field=%s", c.FuncName(TopLevel(fn)), f.Name()), c.Pos(st.Pos()), "the incoming revision's version vector (captured from outside the CAS-retried callback) is assigned in place")
+						r.Fail(rule, fmt.Sprintf("fn=%s overwrites-in-place=incoming-vector field=%s", c.FuncName(TopLevel(fn)), f.Name()), c.Pos(st.Pos()), "the incoming revision's version vector (captured from outside the CAS-retried callback) is assigned in place")
 					}
 				}
 			}
 		})
 	}
-	r.Examined("C06-R1", examined)
-	r.Check("C06-R1", "incoming-vector current-version never-overwritten-in-place (sites examined)", "-", examined >= 5, fmt.Sprintf("%d calls of current-version-overwriting vector methods examined in functions reachable from the write callbacks with captured arguments", examined), fmt.Sprintf("only %d such calls found; the taint walk no longer reaches the resolution code", examined))
+	r.Examined(rule, examined)
+	r.Check(rule, "incoming-vector current-version never-overwritten-in-place (sites examined)", "-", examined >= 5, fmt.Sprintf("%d calls of current-version-overwriting vector methods examined in functions reachable from the write callbacks with captured arguments", examined), fmt.Sprintf("only %d such calls found; the taint walk no longer reaches the resolution code", examined))
 	// the resolution on the vector path builds on a copy (positive anchor)
 	if fn := c.Func("(*db.DatabaseCollectionWithUser).resolveLocalWinsHLV"); fn == nil {
-		r.Fail("C06-R1", "anchor resolveLocalWinsHLV", "-", "function not found")
+		r.Fail(rule, "anchor resolveLocalWinsHLV", "-", "function not found")
 	} else {
 		ok := false
 		for _, call := range c.Calls(fn, false, func(n string) bool { return strings.HasSuffix(n, ".UpdateWithIncomingHLV") || strings.HasSuffix(n, ".MergeWithIncomingHLV") }) {
@@ -343,7 +348,7 @@ func c06R1(c *Ctx, r *Report) {
 				ok = true
 			}
 		}
-		r.Check("C06-R1", "fn=resolveLocalWinsHLV merged-vector built-on=Copy()", c.Pos(fn.Pos()), ok, "local-wins resolution updates a copy of the incoming vector", "local-wins resolution no longer builds the merged vector on a copy of the incoming vector")
+		r.Check(rule, "fn=resolveLocalWinsHLV merged-vector built-on=Copy()", c.Pos(fn.Pos()), ok, "local-wins resolution updates a copy of the incoming vector", "local-wins resolution no longer builds the merged vector on a copy of the incoming vector")
 	}
 }
 
